@@ -1,6 +1,6 @@
 (* Executable case checker for C30: evaluated by vm_compute on cases written by harness/c30.go.
-   Codes: 1 model differs from the implementation; 2 oracle hypothesis H_css false (csscolorparser accepted a
-   stop colour that is not safe inside a double-quoted attribute); 3 a formatting / hashing oracle returned
+   Codes: 1 model differs from the implementation (the model follows the repaired code of /repo commit cdd480e12
+   only); 3 a formatting / hashing oracle returned
    text outside its alphabet, or the witness for the raw Attributes chunk is inconsistent;
    10 escaper output is not character data that decodes to the (sanitised) input; 11 a Render output does not
    lex to exactly the expected element(s); 12 a colour accepted by ValidColor is emitted unsafely;
@@ -81,31 +81,24 @@ Definition check_case (c : case) : list N :=
       flag (opt_eqb gradient_eqb (parse_gradient (fun _ => id) s) res) 1
   | CGrad g pcts degv out =>
       let pct := fun i _ => nth i pcts [] in
-      flag (str_eqb (gradient_to_svg pct (fun _ => degv) g) out
-            || str_eqb (gradient_to_svg_fixed pct (fun _ => degv) g) out) 1
+      flag (str_eqb (gradient_to_svg pct (fun _ => degv) g) out) 1
       ++ flag (forallb num_text pcts && match degv with Some (a, b) => num_text a && num_text b | None => true end) 3
   | CColor c css id valid isgrad istheme pcts degv svg =>
       let gid := fun _ : str => id in
       let css_ok := fun s => lookup_b s css in
       let pct := fun i _ => nth i pcts [] in
       let deg := fun _ : str => degv in
-      flag (Bool.eqb (valid_color gid css_ok c) valid || Bool.eqb (valid_color_fixed gid css_ok c) valid) 1
+      flag (Bool.eqb (valid_color gid css_ok c) valid) 1
       ++ flag (Bool.eqb (is_gradient c) isgrad) 1
       ++ flag (Bool.eqb (is_theme_color c) istheme) 1
       ++ (if valid && isgrad then
             match parse_gradient gid c with
             | Some g =>
-                (* the emitter is either the pinned one or the repaired one of fix.patch *)
-                let pinned := str_eqb (gradient_to_svg pct deg g) svg in
-                let fixed := str_eqb (gradient_to_svg_fixed pct deg g) svg in
-                flag (pinned || fixed) 1
-                ++ flag (negb pinned || forallb (fun s => implb (css_ok (st_color s)) (val_ok (st_color s))) (g_stops g)) 2
+                flag (str_eqb (gradient_to_svg pct deg g) svg) 1
                 ++ flag (forallb num_text pcts && num_text id
                          && match degv with Some (a, b) => num_text a && num_text b | None => true end) 3
-                ++ flag (if pinned
-                         then tokens_eqb (tokenize svg) (gradient_tokens pct deg id_esc g)
-                              && gradient_ok pct deg id_esc g
-                         else tokens_eqb (tokenize svg) (gradient_tokens pct deg escape_text g)) 13
+                ++ flag (tokens_eqb (tokenize svg) (gradient_tokens pct deg escape_text g)
+                         && balanced (gradient_tokens pct deg escape_text g) []) 13
             | None => [1]
             end
           else [])
